@@ -27,7 +27,7 @@ CLAIMED = {
  "C06": dict(
   level="other",
   technique="static analysis: abstract interpretation (linear constraints, exact uint16 wrap) of unmarshal/Unmarshal/CompoundPacket.Unmarshal with decoder summaries, SSA shape rules for the two datagram loops, constant-propagation evaluation of Header.Unmarshal over all first octets",
-  text="Decides the structural clauses behind splitting, locality and all-or-nothing for every input: FRM - every decoder invocation in unmarshal takes the one value rawData[:n], n = 4*(Length+1) holds as an integer identity and 4 <= n <= len(rawData) at every possibly-successful return, processed = n, Length is the big-endian uint16 of bytes 2..3, both datagram loops thread rest = rest[processed:] of the same call, append that call's packet and run until the remainder is empty; VER - Header.Unmarshal returns a non-nil error for all 192 first octets whose version is not 2; LOC - all ~370 index/slice/binary accesses of the 22 decoders are within the LENGTH of the slice they were handed and nothing uses cap() or 3-index slices, so no decoder can see a neighbour frame; AON - error returns of Unmarshal carry the constant nil slice, a nil-error return has at least one packet, CompoundPacket.Unmarshal stores its receiver only after the last decode call; ERR - no callee error is dropped. It does not run Unmarshal(a||b): equality of the decoded values with Unmarshal(a), Unmarshal(b) follows from LOC + C18 determinism, not from a comparison of outputs.",
+  text="Decides the structural clauses behind splitting, locality and all-or-nothing for every input: FRM - every decoder invocation in unmarshal takes the one value rawData[:n], n = 4*(Length+1) holds as an integer identity and 4 <= n <= len(rawData) at every possibly-successful return, processed = n, Length is the big-endian uint16 of bytes 2..3, the datagram parameter of unmarshal is used only for the header read, the cut rawData[:n] and an ordered comparison of its length with that n (frame-local: the result for a frame cannot depend on whether octets follow it), both datagram loops thread rest = rest[processed:] of the same call, append that call's packet and run until the remainder is empty; VER - Header.Unmarshal returns a non-nil error for all 192 first octets whose version is not 2; LOC - all ~370 index/slice/binary accesses of the 22 decoders are within the LENGTH of the slice they were handed and nothing uses cap() or 3-index slices, so no decoder can see a neighbour frame; AON - error returns of Unmarshal carry the constant nil slice, a nil-error return has at least one packet, CompoundPacket.Unmarshal stores its receiver only after the last decode call; ERR - no callee error is dropped. It does not run Unmarshal(a||b): equality of the decoded values with Unmarshal(a), Unmarshal(b) follows from LOC + C18 determinism, not from a comparison of outputs.",
   note="Trusted: go/ssa, checker/num with the decoder summaries of C01, checker/pe, encoding/binary model. A decoder that returns nil for a frame it should reject is C07/C04 territory.",
   design="DESIGN.md §2 C06"),
  "C12": dict(
@@ -39,7 +39,7 @@ CLAIMED = {
  "C16": dict(
   level="other",
   technique="static analysis: bit-provenance abstract interpretation of go/ssa (bit vectors of sources, abstract byte buffers with strided cells, if-then-else joins) composing encoder and decoder maps, compared with RFC layout tables; constant propagation over all first octets; numeric engine for the count guard",
-  text="For every value at once (the maps are symbolic in the field/wire bits, not sampled): RT - for Header, ReceptionReport (24-bit loss), RunLengthChunk, CCFB metric block, NACK pair, SLI entry and FIR entry the encoder's map wire bit <- field bit composed with the decoder's map field bit <- wire bit is the identity in both directions; ENC/DEC - both maps equal the RFC layout (offset, width, big-endian order, constant bits); the StatusVectorChunk decoder is decided too (its constant-trip loops are unrolled: 14 one-bit or 7 two-bit symbols from their RFC positions, per symbol-size alternative); NR - a not-received metric block decodes to zero fields; CNT - Header.Marshal returns nil only with Count <= 31; VER - Header.Unmarshal rejects all 192 first octets whose version is not 2; CHK - every return of the XR chunk accessors selects the RFC 3611 bits and the terminating-null case is a comparison of the whole word with 0. Level other because StatusVectorChunk.Marshal and RecvDelta are outside the engine (listed as not covered; C13 decides the delta width/scale) and the identity claim is for values that fit their wire width.",
+  text="For every value at once (the maps are symbolic in the field/wire bits, not sampled): RT - for Header, ReceptionReport (24-bit loss), RunLengthChunk, CCFB metric block, NACK pair, SLI entry and FIR entry the encoder's map wire bit <- field bit composed with the decoder's map field bit <- wire bit is the identity in both directions; ENC/DEC - both maps equal the RFC layout (offset, width, big-endian order, constant bits); StatusVectorChunk is decided per symbol size on both sides (decoder: constant-trip loops unrolled; encoder: evaluated with SymbolSize fixed and a full list of 14 one-bit / 7 two-bit symbols, the shift table read as a constant map); ACC - 13 corner shapes of the units (padding bit with zero length, all-ones header, extreme chunks and deltas, maximal cumulative-lost, both metric-block extremes) are not rejected on every path by the unit decoders; NR - a not-received metric block decodes to zero fields; CNT - Header.Marshal returns nil only with Count <= 31; VER - Header.Unmarshal rejects all 192 first octets whose version is not 2; CHK - every return of the XR chunk accessors selects the RFC 3611 bits and the terminating-null case is a comparison of the whole word with 0. Level other because RecvDelta (scaled arithmetic) and StatusVectorChunk.Marshal with a partly filled list are outside the engine (listed as not covered; C13 decides the delta width/scale) and the identity claim is for values that fit their wire width.",
   note="Trusted: go/ssa, checker/bits transfer functions, layout tables in props/layout.go written from the RFCs, checker/pe and checker/num for VER/CNT.",
   design="DESIGN.md §2 C16"),
  "C15": dict(
@@ -57,25 +57,25 @@ CLAIMED = {
  "C04": dict(
   level="other",
   technique="static analysis: bit-provenance abstract interpretation of every Unmarshal compared with RFC layout tables; numeric abstract interpretation for the count guards",
-  text="For all inputs at once: the map field bit <- input octet/bit at the successful returns of 14 decoders equals the RFC layout (each field from exactly its wire bits, upper bits zero, no dependency on reserved bits); CNT - SR, RR and SDES return nil only if the number of decoded elements equals the header count; FRESH - at the 13 places where a decoder appends a composite element inside a loop, the element is allocated (or wholly re-assigned) inside that loop, so no field or slice of the previous element can leak into the next; XR - unpackBlockHeader takes each field from its RFC 3611 bits, unknown block types reach UnknownReportBlock, blocks are split at 4*(BlockLength+1). Alternative encodings whose acceptance depends on run-time arithmetic (TWCC chunkings, REMB normalisation, APP padding, BYE reason) are not covered.",
+  text="For all inputs at once: the map field bit <- input octet/bit at the successful returns of 14 decoders equals the RFC layout (each field from exactly its wire bits, upper bits zero, no dependency on reserved bits); CNT - SR, RR, SDES and BYE return nil only if the number of decoded elements equals the header count (BYE: and the announced sources lie inside the packet); ACC - 28 RFC-valid boundary shapes (fixed length, a few fixed octets, everything else arbitrary: padded APP, BYE with/without reason, empty lists, minimal feedback packets, alternative TWCC chunkings, an unknown XR block, a padded frame followed by another) are evaluated by constant propagation and none may be rejected on every path (this proves rejections, it does not prove acceptance); FRESH - at the 13 places where a decoder appends a composite element inside a loop, the element is allocated (or wholly re-assigned) inside that loop, so no field or slice of the previous element can leak into the next; XR - unpackBlockHeader takes each field from its RFC 3611 bits, unknown block types reach UnknownReportBlock, blocks are split at 4*(BlockLength+1). The VALUES that alternative encodings decode to where they depend on run-time arithmetic (TWCC chunkings, REMB normalisation, APP data length, BYE reason text) are not covered.",
   note="Trusted: go/ssa, checker/bits, checker/num, layout tables.",
   design="DESIGN.md §2 C04"),
  "C02": dict(
   level="other",
   technique="static analysis: composition of the bit-provenance maps of every encoder/decoder pair, set comparison of encoded and decoded fields, constant-propagation dispatch table",
-  text="Three clauses each necessary for encode-then-decode to be the identity, for all values at once: SYM - the fields whose bits reach the wire equal the integer fields the decoder stores; LAY - encoder map composed with decoder map is the identity on every field bit that reaches the wire and every wire bit the decoder uses (fixed parts and per-entry strides) for 14 pairs; DSP - the (PT,FMT) each Marshal emits dispatches back to its own Go type (SliceLossIndication: open finding F10d); XR - setup/unpackBlockHeader invert each other on the type-specific octet. Necessary, not sufficient: variable-length parts, list equality and re-marshal byte equality need run-time values and are not covered.",
+  text="Three clauses each necessary for encode-then-decode to be the identity, for all values at once: SYM - the fields whose bits reach the wire equal the integer fields the decoder stores; LAY - encoder map composed with decoder map is the identity on every field bit that reaches the wire and every wire bit the decoder uses (fixed parts and per-entry strides) for 16 pairs (StatusVectorChunk per symbol size with a full symbol list); DSP - the (PT,FMT) each Marshal emits dispatches back to its own Go type (SliceLossIndication: open finding F10d); XR - setup/unpackBlockHeader invert each other on the type-specific octet; CNT - the CCFB count field, whose coding is not the identity, is followed through encoder and decoder by constant propagation for lists of 0..3 metric blocks (n = 1 decodes to 0: open finding F16). Necessary, not sufficient: variable-length parts, list equality and re-marshal byte equality need run-time values and are not covered.",
   note="Trusted: go/ssa, checker/bits, checker/pe, registry.",
   design="DESIGN.md §2 C02"),
  "C09": dict(
   level="other",
-  technique="static analysis: abstract interpretation of go/ssa (linear constraints + congruences) of every encoder on an unconstrained receiver, generating run-time-check obligations",
-  text="Decides one clause of the property, the one whose truth is in the shape of the code: 'marshalling the returned packets never panics'. Every packet type's Marshal, rtcp.Marshal and CompoundPacket.Marshal are analysed for EVERY receiver value with non-nil list elements and a re-encoded size of at most 65532 octets - a superset of what the decoders can return; all ~660 index, slice-bound (against the length), binary access, nil, division, type-assertion, make and loop obligations of the reachable universe must be entailed at the instruction; six obligation groups that need prefix-sum, disjunctive or floating-point reasoning are discharged by a frozen table of reasons confirmed by reading. NOT decided: that the new bytes are accepted again and decode to an equal packet list, and the TransportLayerCC consistency condition - these relate run-time values of two executions; a reader must not take this check as evidence of idempotence.",
-  note="Trusted: go/ssa, checker/num, checker/effects, c09Triaged (6 entries keyed by function and rule, each with its reason and required to match an undecided obligation). Above 65535 octets CCFeedbackReport.Marshal panics (uint16 buffer length) - outside the stated size domain.",
+  technique="static analysis: abstract interpretation of go/ssa (linear constraints + congruences) of every encoder on an unconstrained receiver, generating run-time-check obligations; symbolic evaluation of sizes (sums over lists, prefix sums, if-then-else on field comparisons) for the obligations that relate an encoder's cursor to its size function",
+  text="Decides one clause of the property, the one whose truth is in the shape of the code: 'marshalling the returned packets never panics'. Every packet type's Marshal, rtcp.Marshal and CompoundPacket.Marshal are analysed for EVERY receiver value with non-nil list elements and a re-encoded size of at most 65532 octets - a superset of what the decoders can return; all ~660 index, slice-bound (against the length), binary access, nil, division, type-assertion, make and loop obligations of the reachable universe must be entailed at the instruction; the obligations that relate a write cursor to the size function (SDES, CCFB, APP padding, TWCC deltas) are proved by the symbolic-sum engine (cursor = base + prefix sum, buffer = base + full sum of a per-element term that dominates it), REMB's float loop by a geometric-progress rule; nothing is discharged by reading on the pinned tree. SIZE - each of eight element encoders returns exactly the number of octets its container reserves for it, and RecvDelta.Marshal, packetLen and the delta cursor of TransportLayerCC.Marshal agree per size class. NOT decided: that the new bytes are accepted again and decode to an equal packet list, and the TransportLayerCC consistency condition - these relate run-time values of two executions; a reader must not take this check as evidence of idempotence.",
+  note="Trusted: go/ssa, checker/num, checker/effects, checker/sum, C05's DET/ALN/LEN rules (re-established for CCFeedbackReport), c09SizePairs (which size each container reserves), c09Triaged (one fallback entry for TWCC encoder forms outside the symbolic engine, unused on the pinned tree). Size-domain assumption: the 16-bit arithmetic of the size functions does not wrap. Above 65535 octets CCFeedbackReport.Marshal panics (uint16 buffer length) - outside the stated size domain.",
   design="DESIGN.md §8 (C09 as built)"),
  "C14": dict(
   level="other",
   technique="static analysis: SSA dominator conditions, numeric abstract interpretation and bit provenance for the integer clauses of the REMB codec",
-  text="The numeric core of this property - decode = mantissa x 2^exponent for all 2^24 pairs, encode = largest representable value not above x, monotone, saturating - is IEEE-754 float32 arithmetic and is NOT decided by this check (no engine here models floating point). Decided are only its integer/structural clauses, each a necessary condition: NEG - every nil-error return of MarshalTo is dominated by `bitrate < 0` being false for the receiver's (clamped) bitrate, so a negative bitrate is rejected; EXP - the exponent shifted into octet 17 is entailed within 0..63 at every nil-error return; PACK - the mantissa bits OR-ed into octet 17 next to the exponent are entailed <= 3 (an upper bound of the float bitrate learned from the exit of the normalisation loop is carried through math.Floor into the integer mantissa - the only floating-point fact the engine tracks; NaN is outside the model); NORM - the decode-side loop that left-normalises the mantissa can be left only when bit 23 (the implicit leading bit) is set; CNT-ENC - octet 16 is the low 8 bits of len(SSRCs) and len(SSRCs) <= 255 at every nil-error return; CNT-DEC - Unmarshal returns nil only with len(p.SSRCs) = buf[16]. A reader must not take a pass here as evidence about bitrate values.",
+  text="The numeric core of this property - decode = mantissa x 2^exponent for all 2^24 pairs, encode = largest representable value not above x, monotone, saturating - is IEEE-754 float32 arithmetic and is NOT decided by this check (no engine here models floating point). Decided are only its integer/structural clauses, each a necessary condition: NEG - every nil-error return of MarshalTo is dominated by `bitrate < 0` being false for the receiver's (clamped) bitrate, so a negative bitrate is rejected; EXP - the exponent shifted into octet 17 is entailed within 0..63 at every nil-error return; PACK - the mantissa bits OR-ed into octet 17 next to the exponent are entailed <= 3 (an upper bound of the float bitrate learned from the exit of the normalisation loop is carried through math.Floor into the integer mantissa - the only floating-point fact the engine tracks; NaN is outside the model); NORM - the decode-side loop that left-normalises the mantissa can be left only when bit 23 (the implicit leading bit) is set; CNT-ENC - octet 16 is the low 8 bits of len(SSRCs) and len(SSRCs) <= 255 at every nil-error return; CNT-DEC - Unmarshal returns nil only with len(p.SSRCs) = buf[16]; ZERO - the decoder evaluated by constant propagation on the packets with a zero mantissa (exponents 0, 1, 47, 63) must not store a definite non-zero float (it does: open finding F17, 0 x 2^e decodes to 2^(e+23)). A reader must not take a pass here as evidence about bitrate values.",
   note="Trusted: go/ssa, checker/num, checker/bits. Six obligations.",
   design="DESIGN.md §8 (C14 as built)"),
  "C08": dict(
@@ -93,8 +93,8 @@ CLAIMED = {
  "C11": dict(
   level="other",
   technique="static analysis: constant-propagation evaluation of Validate/CNAME/Marshal/Unmarshal over all member dynamic types and SDES item type codes, plus SSA def-use/dominance rules",
-  text="Decides structural clauses that are necessary for the compound rules, for every dynamic type of the first and of later members and every SDES item type 0..8: which first-member types pass (FIRST), the per-member outcome of the scan incl. which member types let the scan continue, that success is controlled by a monotone flag set only under item.Type==SDESCNAME, that the scan loop carries no other state (SCAN), that Marshal produces bytes only after Validate()==nil and Unmarshal returns nil only as Validate() of the list it just stored and loops until the datagram is empty (GATE), that CNAME() returns the Text of the item just compared equal to SDESCNAME from inside the scan (CNAME). It does not decide grammar equivalence for all sequences (that would be a runtime enumeration); a reader should take it as: the decision structure is the RFC one, not that every sequence was tried.",
-  note="Trusted: go/ssa, checker/pe evaluator. Not covered: CNAME()'s loop-carried err variable; DestinationSSRC/MarshalSize aggregation (C10/C05).",
+  text="Decides structural clauses that are necessary for the compound rules, for every dynamic type of the first and of later members and every SDES item type 0..8: which first-member types pass (FIRST), the per-member outcome of the scan incl. which member types let the scan continue, that success is controlled by a monotone flag set only under item.Type==SDESCNAME, that the scan loop carries no other state (SCAN), that Marshal produces bytes only after Validate()==nil and Unmarshal returns nil only as Validate() of the list it just stored and loops until the datagram is empty (GATE), that CNAME() returns the Text of the item just compared equal to SDESCNAME from inside the scan and that the error it carries can only be assigned at a member that is neither SDES nor RR, where Validate fails (CNAME). It does not decide grammar equivalence for all sequences (that would be a runtime enumeration); a reader should take it as: the decision structure is the RFC one, not that every sequence was tried.",
+  note="Trusted: go/ssa, checker/pe evaluator. Not covered: DestinationSSRC/MarshalSize aggregation (C10/C05).",
   design="DESIGN.md §2 C11"),
  "C10": dict(
   level="other",
